@@ -461,3 +461,19 @@ def run_selfgen(exe, argsets, timeout=7200, tag="selfgen", env=None, maxpar=None
         res = list(ex.map(one, list(enumerate(argsets))))
     shutil.rmtree(d, ignore_errors=True)
     return res
+
+
+def pmap(fn, items, nproc=None):
+    """multiprocessing map with fork (fn must be a module-level function)."""
+    import multiprocessing as mp
+    nproc = nproc or NCPU
+    if nproc <= 1 or len(items) <= 1:
+        return [fn(x) for x in items]
+    ctx = mp.get_context("fork")
+    with ctx.Pool(min(nproc, len(items))) as pool:
+        return pool.map(fn, items, chunksize=1)
+
+
+def run_harness_single(exe, cases, args=(), env=None, timeout=3600, tag="run1"):
+    """Like run_harness but one harness process (for use inside pmap workers)."""
+    return run_harness(exe, cases, args=args, workers=1, env=env, timeout=timeout, tag=tag)
